@@ -76,6 +76,11 @@ Proof.
       rewrite En. reflexivity.
 Qed.
 
+Lemma hfree_drop : forall h a h', hfree h a = Some h' -> hdrop h' = hdrop h.
+Proof. intros h a h' H. unfold hfree in H. destruct (rd h a); [|discriminate]. inversion H. reflexivity. Qed.
+Lemma hdrop_hemit : forall h w f, hdrop (hemit h w f) = hdrop h.
+Proof. intros. unfold hemit. destruct (Z.testbit f 1 || Z.testbit f 2); reflexivity. Qed.
+
 (* ------------------------------------------------------------------ the queues of the logical state, by name *)
 
 Definition lget (s : st) (n : qn) : list watch :=
@@ -117,7 +122,8 @@ Record Rep0 (X : list watch) (h : hst) (s : st) : Prop := mkRep {
   r_len : Z.of_nat (length (hp h)) = next_id s;
   r_now : hnow h = now s;
   r_iter : hiter h = iter s;
-  r_log : hlog h = log s }.
+  r_log : hlog h = log s;
+  r_drop : hdrop h = dropped s }.
 
 (* ... and the harness believes live exactly the listed watches *)
 Definition Rep (X : list watch) (h : hst) (s : st) : Prop :=
@@ -273,6 +279,7 @@ Proof.
     + destruct (lset_scalars s n l') as [_ [E2 _]]. unfold s'. destruct n; cbn; apply (r_now X h s HR).
     + unfold s'. destruct n; cbn; apply (r_iter X h s HR).
     + unfold s'. destruct n; cbn; apply (r_log X h s HR).
+    + unfold s'. destruct n; cbn; apply (r_drop X h s HR).
   - intros b. cbn [hlive h' set_hlive In]. split.
     + intros [Eb|Hb].
       * exists n. apply Hq'. left. split; [reflexivity|symmetry; exact Eb].
@@ -324,7 +331,7 @@ Qed.
 Lemma sim_reg : forall X h s a, Rep X h s -> exists h', h_reg h a = Some h' /\ Rep X h' (do_reg false s a).
 Proof.
   intros X h s a HR. pose proof HR as [HR0 HL].
-  destruct a as [d fl cb|fl cb|k x fl cb|id|]; try (exists h; split; [reflexivity|exact HR]).
+  destruct a as [d fl cb|fl cb|k x fl cb|id| |]; try (exists h; split; [reflexivity|exact HR]).
   - (* timer: sorted insert *)
     cbn [h_reg do_reg]. rewrite (r_now X h s HR0).
     set (mk := fun p => mkW p KTimer (f_unbind fl) (f_destroy fl) cb (now s + d)).
@@ -347,6 +354,8 @@ Proof.
     + apply (sim_link_insert X h s QI (fun p => mkW p KIo (f_unbind fl) (f_destroy fl) cb 0) (f_first fl) HR); reflexivity.
     + apply (sim_link_insert X h s QS (fun p => mkW p KSig (f_unbind fl) (f_destroy fl) cb x) (f_first fl) HR); reflexivity.
     + apply (sim_link_insert X h s QP (fun p => mkW p KProc (f_unbind fl) (f_destroy fl) cb 0) (f_first fl) HR); reflexivity.
+  - eexists. split; [reflexivity|]. split; [|exact HL].
+    destruct HR0 as [a b c d e f g i j k l m dd]. apply mkRep; try assumption. reflexivity.
 Qed.
 
 Lemma sim_regs : forall l X h s, Rep X h s -> exists h', h_regs h l = Some h' /\ Rep X h' (do_regs false s l).
@@ -368,7 +377,7 @@ Lemma Rep0_emit : forall X h s w f, Rep0 X h s -> Rep0 X (hemit h w f) (emit s w
 Proof.
   intros X h s w f HR. destruct (hemit_fields h w f) as [E1 [E2 [E3 [E4 [E5 E6]]]]].
   assert (Hrd : forall a, rd (hemit h w f) a = rd h a) by (intros; apply rd_hemit).
-  destruct HR as [a b c d e f0 g i j k l m]. apply mkRep.
+  destruct HR as [a b c d e f0 g i j k l m dd]. apply mkRep.
   - intros n. rewrite E2. apply a.
   - intros n v Hv. rewrite Hrd. apply b. exact Hv.
   - intros v Hv. rewrite Hrd. apply c. exact Hv.
@@ -381,6 +390,7 @@ Proof.
   - rewrite E3. exact k.
   - rewrite E4. exact l.
   - rewrite E5. unfold emit. cbn. rewrite k, l, m. reflexivity.
+  - rewrite hdrop_hemit. exact dd.
 Qed.
 
 (* the callback of a detached watch: the harness flag it clears is already clear *)
@@ -415,6 +425,7 @@ Proof.
     + rewrite E3. apply (r_now _ h s HR).
     + rewrite E4. apply (r_iter _ h s HR).
     + rewrite E5. apply (r_log _ h s HR).
+    + rewrite (hfree_drop _ _ _ Ef). apply (r_drop _ h s HR).
   - intros a. rewrite E1, E2. apply HL.
 Qed.
 
@@ -460,6 +471,7 @@ Proof.
     + destruct (lset_scalars s n (l1 ++ l2)) as [_ [E2 _]]. rewrite E2. apply (r_now X h s HR).
     + destruct (lset_scalars s n (l1 ++ l2)) as [_ [_ [E3 _]]]. rewrite E3. apply (r_iter X h s HR).
     + destruct (lset_scalars s n (l1 ++ l2)) as [_ [_ [_ E4]]]. rewrite E4. apply (r_log X h s HR).
+    + destruct n; cbn; apply (r_drop X h s HR).
   - intros b. change (hlive h') with (remz a (hlive h)). rewrite remz_in, HL. split.
     + intros [[m Hm] Hne]. exists m. apply Hq'. split; assumption.
     + intros [m Hm]. apply Hq' in Hm. destruct Hm as [Hm Hne]. split; [exists m; exact Hm|exact Hne].
@@ -572,7 +584,7 @@ Qed.
 
 Lemma sim_action : forall X h s a, Rep X h s -> exists h', h_action false uenv h a = Some h' /\ Rep X h' (do_action false uenv s a).
 Proof.
-  intros X h s a HR. destruct a as [d fl cb|fl cb|k x fl cb|id|];
+  intros X h s a HR. destruct a as [d fl cb|fl cb|k x fl cb|id| |];
     try (exact (sim_reg X h s _ HR)).
   cbn [h_action do_action]. destruct (inz id (hlive h)) eqn:E.
   - apply inz_in in E. apply sim_cancel; assumption.
@@ -694,6 +706,7 @@ Proof.
       rewrite E3, E3'. apply (r_iter X h s HR).
     + destruct (lset_scalars (lset s n (lget s n ++ d)) m r) as [_ [_ [_ E4]]]. destruct (lset_scalars s n (lget s n ++ d)) as [_ [_ [_ E4']]].
       rewrite E4, E4'. apply (r_log X h s HR).
+    + destruct n; destruct m; cbn; apply (r_drop X h s HR).
   - intros b. change (hlive h') with (hlive h). rewrite HL. split; intros [k Hbk]; [eapply Ho2n|eapply Hn2o]; exact Hbk.
 Qed.
 
@@ -702,7 +715,7 @@ Qed.
 Lemma Rep_hlive_ext : forall X h s v, Rep X h s -> (forall b, In b v <-> In b (hlive h)) -> Rep X (set_hlive h v) s.
 Proof.
   intros X h s v [HR HL] Hv. split.
-  - destruct HR as [a b c d e f g i j k l m]. apply mkRep; assumption.
+  - destruct HR as [a b c d e f g i j k l m dd]. apply mkRep; assumption.
   - intros b. cbn [hlive set_hlive]. rewrite Hv. apply HL.
 Qed.
 
@@ -822,7 +835,7 @@ Proof.
   set (h1 := set_hiter (set_hnow h (now s + dt)) (iter s + 1)).
   set (s1 := set_iter (set_now s (now s + dt)) (iter s + 1)).
   assert (HR1 : Rep [] h1 s1).
-  { destruct HR as [HRa HL]. split; [|exact HL]. destruct HRa as [a b c d e f g i j k l m]. apply mkRep; try assumption; reflexivity. }
+  { destruct HR as [HRa HL]. split; [|exact HL]. destruct HRa as [a b c d e f g i j k l m dd]. apply mkRep; try assumption; reflexivity. }
   pose proof HR1 as [HR10 _].
   assert (Hm : (if sleep then h_next_msec h1 else Some 0) = Some (if sleep then next_timer_msec s1 else 0)).
   { destruct sleep; [|reflexivity]. unfold h_next_msec, next_timer_msec.
@@ -835,10 +848,10 @@ Proof.
   rewrite (r_log [] h1 s1 HR10).
   set (h2 := set_hlog h1 (OPoll msec :: log s1)). set (s2 := set_log s1 (OPoll msec :: log s1)).
   assert (HR2 : Rep [] h2 s2).
-  { destruct HR1 as [HRa HL]. split; [|exact HL]. destruct HRa as [a b c d e f g i j k l m]. apply mkRep; try assumption; reflexivity. }
+  { destruct HR1 as [HRa HL]. split; [|exact HL]. destruct HRa as [a b c d e f g i j k l m dd]. apply mkRep; try assumption; reflexivity. }
   pose proof HR2 as [HR20 _]. rewrite (r_now [] h2 s2 HR20).
   apply sim_invoke_timers. destruct (sleep && (0 <? msec)); [|exact HR2].
-  destruct HR2 as [HRa HL]. split; [|exact HL]. destruct HRa as [a b c d e f g i j k l m]. apply mkRep; try assumption; reflexivity.
+  destruct HR2 as [HRa HL]. split; [|exact HL]. destruct HRa as [a b c d e f g i j k l m dd]. apply mkRep; try assumption; reflexivity.
 Qed.
 
 End Loops.
@@ -869,6 +882,7 @@ Proof.
   - rewrite E3. apply (r_now _ h s HR).
   - rewrite E4. apply (r_iter _ h s HR).
   - rewrite E5. apply (r_log _ h s HR).
+  - rewrite (hfree_drop _ _ _ Ef). apply (r_drop _ h s HR).
 Qed.
 
 Definition dfun (oh : option hst) (a : Z) : option hst :=
@@ -945,6 +959,7 @@ Proof.
   - destruct (lset_scalars s n []) as [_ [E2 _]]. rewrite E2. apply (r_now X h s HR).
   - destruct (lset_scalars s n []) as [_ [_ [E3 _]]]. rewrite E3. apply (r_iter X h s HR).
   - destruct (lset_scalars s n []) as [_ [_ [_ E4]]]. rewrite E4. apply (r_log X h s HR).
+  - destruct n; cbn; apply (r_drop X h s HR).
 Qed.
 
 Definition dstep (s : st) (n : qn) : st := destroy_list (lset s n []) (lget s n).
@@ -1016,18 +1031,12 @@ Proof.
   - destruct (sim_tick env uenv true 0 h s HR) as [h1 [E1 HR1]]. rewrite E1. apply IH. exact HR1.
 Qed.
 
-(* the heap-level twin never touches a freed node, frees every node it allocated, and logs
-   what the list model logs -- for every script and every pair of callback environments *)
-Theorem heap_safe : forall ops, h_run false env uenv ops = Some (run false env uenv ops, true).
+(* tickit_destroy from a state with empty running queues: every node is freed, the log is the
+   list model's *)
+Lemma destroy_now_safe : forall h s0, Rep0 [] h s0 -> run_timers s0 = [] -> run_laters s0 = [] ->
+  exists h', h_destroy_now h = Some h' /\ hlog h' = log (destroy_now s0) /\ no_live h' = true.
 Proof.
-  intros ops. unfold h_run, h_run_ops, run.
-  destruct (sim_ops ops hst0 st0 Rep_init) as [h [E HR]]. rewrite E.
-  set (s := run_ops false env uenv ops) in *. change (fold_left (do_op false env uenv) ops st0) with s in HR.
-  destruct (Quiet_run_ops false env uenv ops) as [_ [Qrt Qrl]]. fold s in Qrt, Qrl.
-  destruct HR as [HR0 _]. unfold h_destroy.
-  set (s0 := set_iter s (-1)).
-  assert (HRi : Rep0 [] (set_hiter h (-1)) s0).
-  { destruct HR0 as [a b c d e f g i j k l m]. apply mkRep; try assumption; reflexivity. }
+  intros h s0 HRi Qrt Qrl. unfold h_destroy_now.
   destruct (sim_destroy_list [] _ s0 QI HRi) as [h1 [E1 HR1]]. rewrite E1.
   destruct (sim_destroy_list [] _ _ QT HR1) as [h2 [E2 HR2]]. rewrite E2.
   destruct (sim_destroy_list [] _ _ QL HR2) as [h3 [E3 HR3]]. rewrite E3.
@@ -1043,9 +1052,8 @@ Proof.
   assert (Hlog : forall t t' n, now t = now t' -> iter t = iter t' -> log t = log t' ->
                                log (dstep t n) = log (destroy_list t' (lget t n))).
   { intros t t' n H1 H2 H3. unfold dstep. apply destroy_list_log; destruct (lset_scalars t n []) as [_ [C' [D' E']]]; congruence. }
-  f_equal. f_equal.
-  - (* the log *)
-    f_equal. rewrite (r_log [] h5 s5 HR5). unfold destroy. fold s0. cbn [log set_procs set_sigs set_laters set_timers set_ios].
+  exists h5. split; [reflexivity|]. split.
+  - rewrite (r_log [] h5 s5 HR5). unfold destroy_now. cbn [log set_procs set_sigs set_laters set_timers set_ios].
     unfold s5, s4, s3, s2, s1.
     set (d1 := destroy_list s0 (ios s0)). set (d2 := destroy_list d1 (timers s0)). set (d3 := destroy_list d2 (laters s0)).
     set (d4 := destroy_list d3 (sigs s0)).
@@ -1067,13 +1075,65 @@ Proof.
     assert (L4 : lget s4 QP = procs s0) by (unfold s4, s3, s2, s1; rewrite !Hlg; reflexivity).
     destruct F4 as [A1 [B1 C1]]. fold s1 s2 s3 s4. change (dstep s4 QP) with s5. unfold s5.
     rewrite (Hlog s4 d4 QP A1 B1 C1), L4. reflexivity.
-  - (* no node is left *)
-    apply no_live_of. intros a. destruct (rd h5 a) as [w|] eqn:Erd; [|reflexivity]. exfalso.
+  - apply no_live_of. intros a. destruct (rd h5 a) as [w|] eqn:Erd; [|reflexivity]. exfalso.
     destruct (r_live [] h5 s5 HR5 a w Erd) as [[n Hn]|[]].
     rewrite (r_q [] h5 s5 HR5) in Hn.
     assert (Hall : lget s5 n = []).
     { unfold s5, s4, s3, s2, s1. rewrite !Hlg. destruct n; cbn [qn_eqb]; try reflexivity; [exact Qrt|exact Qrl]. }
     rewrite Hall in Hn. destruct Hn.
+Qed.
+
+(* the heap-level twin never touches a freed node, frees every node it allocated, and logs
+   what the list model logs -- for every script and every pair of callback environments *)
+Theorem heap_safe : forall ops, h_run false env uenv ops = Some (run false env uenv ops, true).
+Proof.
+  intros ops. unfold h_run, h_run_ops, run.
+  destruct (sim_ops ops hst0 st0 Rep_init) as [h [E HR]]. rewrite E.
+  set (s := run_ops false env uenv ops) in *. change (fold_left (do_op false env uenv) ops st0) with s in HR.
+  destruct (Quiet_run_ops false env uenv ops) as [_ [Qrt Qrl]]. fold s in Qrt, Qrl.
+  destruct HR as [HR0 _].
+  assert (HRi : Rep0 [] (set_hiter h (-1)) (set_iter s (-1))).
+  { destruct HR0 as [a b c d e f g i j k l m dd]. apply mkRep; try assumption; reflexivity. }
+  destruct (destroy_now_safe _ _ HRi Qrt Qrl) as [h' [Ed [El En]]].
+  change (h_destroy h) with (h_destroy_now (set_hiter h (-1))). rewrite Ed.
+  change (destroy s) with (destroy_now (set_iter s (-1))). rewrite El, En. reflexivity.
+Qed.
+
+(* ... and with the application dropping its reference from a callback or between iterations
+   (tickit_tick holds its own, fixes/C18-tick-holds-reference.patch): the instance is destroyed when
+   the running tick returns -- the running queues are empty then, so nothing is read after it is
+   freed and nothing leaks *)
+Lemma sim_opsx : forall ops h s, Rep [] h s -> Quiet s ->
+  exists h', h_run_opsx false env uenv ops h = Some (h', snd (run_opsx false env uenv ops s)) /\
+             Rep [] h' (fst (run_opsx false env uenv ops s)) /\ Quiet (fst (run_opsx false env uenv ops s)).
+Proof.
+  induction ops as [|o r IH]; intros h s HR HQ; [exists h; split; [reflexivity|split; assumption]|].
+  cbn [h_run_opsx run_opsx].
+  assert (Hop : exists h1, h_op false env uenv (Some h) o = Some h1 /\ Rep [] h1 (do_op false env uenv s o)).
+  { destruct o as [a|dt|]; cbn [h_op do_op].
+    - exact (sim_action uenv [] h s a HR).
+    - exact (sim_tick env uenv false dt h s HR).
+    - exact (sim_tick env uenv true 0 h s HR). }
+  destruct Hop as [h1 [E1 HR1]]. rewrite E1.
+  assert (HQ1 : Quiet (do_op false env uenv s o)).
+  { destruct o as [a|dt|]; cbn [do_op]; [apply Quiet_action|apply Quiet_tick|apply Quiet_tick]; exact HQ. }
+  rewrite (r_drop [] h1 _ (proj1 HR1)).
+  destruct (dropped (do_op false env uenv s o)); [exists h1; split; [reflexivity|split; assumption]|].
+  apply IH; assumption.
+Qed.
+
+Theorem heap_safe_x : forall ops, h_runx false env uenv ops = Some (runx false env uenv ops, true).
+Proof.
+  intros ops. unfold h_runx, runx.
+  destruct (sim_opsx ops hst0 st0 Rep_init (Quiet_st0)) as [h [E [HR [_ [Qrt Qrl]]]]]. rewrite E.
+  destruct (run_opsx false env uenv ops st0) as [s early]. cbn [fst snd] in *.
+  destruct HR as [HR0 _]. destruct early.
+  - destruct (destroy_now_safe _ _ HR0 Qrt Qrl) as [h' [Ed [El En]]]. rewrite Ed, El, En. reflexivity.
+  - assert (HRi : Rep0 [] (set_hiter h (-1)) (set_iter s (-1))).
+    { destruct HR0 as [a b c d e f g i j k l m dd]. apply mkRep; try assumption; reflexivity. }
+    destruct (destroy_now_safe _ _ HRi Qrt Qrl) as [h' [Ed [El En]]].
+    change (h_destroy h) with (h_destroy_now (set_hiter h (-1))). rewrite Ed.
+    change (destroy s) with (destroy_now (set_iter s (-1))). rewrite El, En. reflexivity.
 Qed.
 
 End Run.
